@@ -107,7 +107,9 @@ func apiRunner(patchText string, c *MCase) ([]byte, error, string) {
 func cliRunner(env *core.Env, flags ...string) toolRunner { return cliRunnerMode(env, false, flags...) }
 
 // cliRunnerReal uses the real binary as a subprocess instead of the in-process driver.
-func cliRunnerReal(env *core.Env, flags ...string) toolRunner { return cliRunnerMode(env, true, flags...) }
+func cliRunnerReal(env *core.Env, flags ...string) toolRunner {
+	return cliRunnerMode(env, true, flags...)
+}
 
 func cliRunnerMode(env *core.Env, real bool, flags ...string) toolRunner {
 	return func(patchText string, c *MCase) ([]byte, error, string) {
